@@ -42,9 +42,11 @@ CAP = 60000
 
 
 class Collector(object):
-    def __init__(self, chan):
+    def __init__(self, chan, sink=None):
         self.chan = chan
-        self.records = []
+        # (a second watcher's stream is its own object - its own open /
+        # closed state - but records into the same list)
+        self.records = [] if sink is None else sink.records
 
     def __call__(self, data):
         self.records.append((data.get('pid'), data.get('name'),
@@ -54,12 +56,36 @@ class Collector(object):
         pass
 
 
+class FileLikeCollector(Collector):
+    """A stream that, like the file streams, is closed when its watcher is
+    stopped and re-opened by the next start; output handed to it while it is
+    closed is lost (a real file raises ValueError)."""
+
+    def __init__(self, chan, sink=None):
+        Collector.__init__(self, chan, sink)
+        self.opened = True
+
+    def __call__(self, data):
+        if not self.opened:
+            raise ValueError("I/O operation on closed stream")
+        Collector.__call__(self, data)
+
+    def open(self):
+        self.opened = True
+
+    def close(self):
+        self.opened = False
+
+
 def pattern(k, n):
     return bytes(((k * 31 + j * 7) % 251) for j in range(n))
 
 
 def execute(case):
-    out, err = Collector('stdout'), Collector('stderr')
+    out = (FileLikeCollector if case.get("out_filelike") else Collector)(
+        'stdout')
+    err = (FileLikeCollector if case.get("err_filelike") else Collector)(
+        'stderr')
     wc = {"name": "w", "numprocesses": case["np"], "graceful_timeout": 0.2}
     has_out = case.get("stdout", True) or not case.get("stderr", True)
     if has_out:
@@ -71,9 +97,10 @@ def execute(case):
         # a second capturing watcher: descriptors freed by one are reused
         # by the other
         wc2 = {"name": "v", "numprocesses": 1, "graceful_timeout": 0.2,
-               "stdout_stream": {"stream": out}}
+               "stdout_stream": {"stream": type(out)('stdout', sink=out)}}
         if case.get("stderr", True):
-            wc2["stderr_stream"] = {"stream": err}
+            wc2["stderr_stream"] = {"stream": type(err)('stderr',
+                                                        sink=err)}
         watchers.append(wc2)
     hc = {"watchers": watchers, "ops": [],
           "tape": [{"react": "ignore"} if x else
@@ -210,11 +237,18 @@ def execute(case):
                 w.check()
                 w.run_idle()
             elif kind == 'req':
+                if op[1] == 'set' and (case.get("out_filelike") or
+                                       case.get("err_filelike")):
+                    # changing a stream option re-creates the stream from its
+                    # configuration and closes the old one; these streams
+                    # are configured as ready-made objects, so old and new
+                    # would be one object: not a meaningful combination
+                    continue
                 w.request(op[1], json.loads(json.dumps(op[2])))
                 classes.add('sibling-restart')
                 if op[1] == 'set':
                     classes.add('stream-option-set')
-                if op[1] == 'restart':
+                if op[1] in ('restart', 'stop', 'start'):
                     w.drain(30.0)
             elif kind == 'adv':
                 w.advance(op[1])
@@ -312,9 +346,15 @@ def _strategy():
                   st.just({"name": "v", "match": "simple"})).map(list),
         st.tuples(st.just('req'), st.just('kill'),
                   st.just({"name": "w"})).map(list))
-    op = st.one_of(op, op, op, second)
+    stopstart = st.sampled_from(
+        [['req', 'stop', {"name": "w", "match": "simple"}],
+         ['req', 'start', {"name": "w", "match": "simple"}],
+         ['req', 'start', {"name": "w", "match": "simple"}]])
+    op = st.one_of(op, op, op, op, second, stopstart)
     return st.fixed_dictionaries({
         "second": st.booleans(),
+        "out_filelike": st.booleans(),
+        "err_filelike": st.booleans(),
         "stubborn": st.lists(st.booleans(), max_size=6),
         "np": st.integers(1, 4),
         "stderr": st.sampled_from([True, True, False]),
